@@ -35,7 +35,7 @@ Qed.
 Lemma expect_all_loc : forall l tg it i, Forall sub_loc l -> Forall sub_loc (expect_all l tg it i).
 Proof.
   induction l as [|c l IH]; intros tg it i H; cbn; [constructor|]. inversion H; subst.
-  constructor; [|apply IH; assumption]. destruct (existsb (Nat.eqb i) tg); [|assumption]. exact H2.
+  constructor; [|apply IH; assumption]. exact H2.
 Qed.
 
 Lemma emit_loc : forall st k l st', Forall sub_loc (subs st) -> step_emit st k = Some (l, st') -> Forall sub_loc (subs st').
